@@ -47,6 +47,20 @@ class C11(Check):
             ex = w.exchanges()
             self.nominal[name] = {"n": len(ex),
                                   "kinds": [dialogues.classify_exchange(name, e[2]) for e in ex]}
+        # what "the full bring-up checks" are on this tree: the exchanges of the real
+        # initialize_device against a device that is already in the signer (must at least ask
+        # for the onboarded flag and the mode)
+        w0 = World(PowHsm(seed=b"c11"))
+        p0 = harness.make_protocol(w0, connected=False)
+        p0.initialize_device()
+        global BRINGUP
+        BRINGUP = [e[2][1] for e in w0.log if e[0] == "x"]
+        if 0x06 not in BRINGUP or 0x43 not in BRINGUP:
+            self.pre_violations.append(Violation(
+                "C11", "C11:bring-up-does-not-check-onboarding-and-mode",
+                {"name": "getPubKey", "idx": 0, "fault": "none", "follow": "version", "k": 0}, None,
+                {"bring_up_apdus": BRINGUP}, "onboarded flag and mode queried", "bring-up"))
+        self.bringup = BRINGUP
         self.follow5 = ["getPubKey", "sign-hash", "state", "advance-nobrothers", "signerHeartbeat",
                         "params", "version"]
         if self.thorough:
@@ -187,7 +201,7 @@ class C11(Check):
             viol("repair-not-retried", {"log": ent[:8], "reply": replies[2][0]},
                  "close/open and the full bring-up before the command")
             return
-        after = [e[1] for e in ent[opens[0] + 1:opens[0] + 5]]
+        after = [e[1] for e in ent[opens[0] + 1:opens[0] + 1 + len(BRINGUP)]]
         if after != BRINGUP or replies[2][1] is not None or codes[2] not in (0, 1):
             viol("repair-retry-incomplete", {"apdus_after_open": after, "reply": replies[2][0],
                                              "exc": replies[2][1]}, {"apdus_after_open": BRINGUP})
@@ -266,14 +280,14 @@ class C11(Check):
                         return
                     continue     # still pending
                 pos += 1
-                got = [e[1] for e in entries[pos:pos + 4]]
+                got = [e[1] for e in entries[pos:pos + len(BRINGUP)]]
                 if got != BRINGUP:
                     viol("bring-up-incomplete", {"apdus_after_open": got, "log": entries[:10]},
                          {"apdus_after_open": BRINGUP})
                     return
                 pending = False
                 handle_open = True
-                rest = entries[pos + 4:]
+                rest = entries[pos + len(BRINGUP):]
             else:
                 rest = entries
                 if fname != "uiHeartbeat" and any(e[0] != "x" for e in entries):
